@@ -261,5 +261,108 @@ func c14(args []string) error {
 		}
 		tr.Emit(map[string]any{"ev": "end", "sc": sc})
 	}
+
+	// ---- two stages under back-pressure: a first-stage worker that was in the middle of an item when the pause came
+	// is blocked sending to the (full) channel of the second stage, whose workers have already acknowledged.  It can
+	// acknowledge only after a second-stage worker was woken - whatever order Resume reads its subscribers in.
+	for k := 0; k < 6+n/8; k++ {
+		sc := n + 1 + k
+		pause.ResetForVerif()
+		tr.Emit(map[string]any{"ev": "start", "sc": sc, "workers": 4, "late": false, "kind": "chain"})
+		ctx, cancel := context.WithCancel(context.Background())
+		link := make(chan int, 1)
+		var wg sync.WaitGroup
+		worker := func(w string, in <-chan int, out chan<- int, cost time.Duration) {
+			wg.Add(1)
+			go func() {
+				defer wg.Done()
+				chans := pause.Subscribe()
+				tr.Emit(map[string]any{"ev": "sub", "sc": sc, "w": w})
+				defer func() {
+					pause.Unsubscribe(chans)
+					tr.Emit(map[string]any{"ev": "exit", "sc": sc, "w": w})
+				}()
+				for {
+					select {
+					case <-ctx.Done():
+						return
+					case <-chans.PauseCh:
+						tr.Emit(map[string]any{"ev": "ack", "sc": sc, "w": w})
+						select {
+						case chans.ResumeCh <- struct{}{}:
+						case <-ctx.Done():
+							return
+						}
+						tr.Emit(map[string]any{"ev": "woken", "sc": sc, "w": w})
+					case x := <-in:
+						tr.Emit(map[string]any{"ev": "take", "sc": sc, "w": w})
+						time.Sleep(cost)
+						if out != nil {
+							select {
+							case <-ctx.Done():
+								return
+							case out <- x:
+							}
+						}
+					}
+				}
+			}()
+		}
+		src := make(chan int)
+		worker("w1", src, link, 300*time.Microsecond)
+		worker("w2", src, link, 300*time.Microsecond)
+		worker("w3", link, nil, 2*time.Millisecond)
+		worker("w4", link, nil, 2*time.Millisecond)
+		feedCtx, feedCancel := context.WithCancel(context.Background())
+		go func() {
+			for {
+				select {
+				case <-feedCtx.Done():
+					return
+				case src <- 1:
+				}
+			}
+		}()
+		stuck := false
+		call := func(c, op string) {
+			if stuck {
+				return
+			}
+			tr.Emit(map[string]any{"ev": "call", "sc": sc, "c": c, "op": op})
+			done := make(chan struct{})
+			go func() {
+				if op == "pause" {
+					pause.Pause("verif")
+				} else {
+					pause.Resume()
+				}
+				close(done)
+			}()
+			select {
+			case <-done:
+				tr.Emit(map[string]any{"ev": "ret", "sc": sc, "c": c, "op": op})
+			case <-time.After(1500 * time.Millisecond):
+				stuck = true
+				tr.Emit(map[string]any{"ev": "stuck", "sc": sc, "c": c, "op": op})
+			}
+		}
+		for round := 0; round < 4; round++ {
+			time.Sleep(8 * time.Millisecond)
+			call("c1", "pause")
+			time.Sleep(15 * time.Millisecond)
+			call("c1", "resume")
+		}
+		tr.Emit(map[string]any{"ev": "stop", "sc": sc})
+		cancel()
+		feedCancel()
+		wdone := make(chan struct{})
+		go func() { wg.Wait(); close(wdone) }()
+		select {
+		case <-wdone:
+		case <-time.After(1500 * time.Millisecond):
+			tr.Emit(map[string]any{"ev": "wstuck", "sc": sc})
+		}
+		tr.Emit(map[string]any{"ev": "end", "sc": sc})
+	}
 	return nil
 }
